@@ -43,6 +43,11 @@ Forms == /\ ~done
             \/ \E exh \in {"false", "true"} : \E form \in LitForms \ {"lit"} : \E n \in {4, 8, 12} : \E top \in {2^n - 1, 2^n} :
                  e' = [name |-> "E", n |-> n, exh |-> exh, variants |->
                          <<V(0, <<>>, "none", form), V(1, DSeq(top, n + 1), "none", form), V(2, DSeq(10, n + 1), "none", "lit")>>]
+            (* type-suffixed literals (suffix = the storage type, the enum carries the matching #[repr]): the VALUE is the digits
+               before the suffix, also when the last digits happen to be characters of the suffix *)
+            \/ \E exh \in {"false", "omitted"} : \E n \in {5, 8, 12} :
+                 e' = [name |-> "E", n |-> n, exh |-> exh, variants |->
+                         [k \in 1..8 |-> LET x == <<1, 16, 6, 21, 10, 8, 18, 28>>[k] IN V(k, DSeq(x, n + 1), "none", IF x = 10 THEN "lit" ELSE "suf")]]
          /\ done' = TRUE
 
 (* cfg-gated variants: a gated extra value, or two variants sharing a value under exclusive gates *)
